@@ -12,3 +12,18 @@ Definition obs_path (p : spath) : opath :=
        (match sp_meta p with Some m => md_mtu m | None => 0 end)
        (match sp_meta p with Some m => odefault [] (md_ifaces m) | None => [] end).
 
+
+(** decidable well-formedness of a segment (the hypothesis of the C04 theorems that need one):
+    at least two AS entries, no AS twice, ConsIngress = 0 exactly at the first entry and
+    ConsEgress = 0 exactly at the last, peer hop fields with a non-zero peering interface and
+    the entry's ConsEgress *)
+Fixpoint nodupb (l : list N) : bool :=
+  match l with [] => true | x :: r => negb (existsb (N.eqb x) r) && nodupb r end.
+Definition wf_entryb (len : nat) (ie : nat * asentry) : bool :=
+  let '(i, ae) := ie in
+  Bool.eqb (hf_in (ae_hf ae) =? 0) (Nat.eqb i 0)
+  && Bool.eqb (hf_eg (ae_hf ae) =? 0) (Nat.eqb (S i) len)
+  && forallb (fun p => negb (hf_in (pe_hf p) =? 0) && (hf_eg (pe_hf p) =? hf_eg (ae_hf ae))) (ae_peers ae).
+Definition wf_segb (s : segment) : bool :=
+  (2 <=? length (sg_entries s))%nat && nodupb (map ae_ia (sg_entries s))
+  && forallb (wf_entryb (length (sg_entries s))) (enumerate (sg_entries s)).
